@@ -198,6 +198,8 @@ impl VersionManager {
                 .open(&temp_manifest_path)
                 .await?;
         }
+        #[cfg(risinglight_verif)]
+        crate::verif::crash_point("rewrite.tmp_created", &temp_manifest_path, &[]);
         // Write to tempfile
         let epoch = {
             let mut temp_manifest = Manifest::open(&temp_manifest_path, true).await?;
@@ -206,15 +208,23 @@ impl VersionManager {
         };
         // Rename this tempfile to manifest
         let manifest_path = manifest_dir_path.join(MANIFEST_FILE_NAME);
+        #[cfg(risinglight_verif)]
+        crate::verif::crash_point("rewrite.tmp_written", &temp_manifest_path, &[]);
         tokio::fs::rename(&temp_manifest_path, &manifest_path).await?;
+        #[cfg(risinglight_verif)]
+        crate::verif::crash_point("rewrite.renamed", &manifest_path, &[]);
         manifest.reopen(&manifest_path).await?;
         Ok(epoch)
     }
 
     /// Commit changes and return a new epoch number
     pub async fn commit_changes(&self, ops: Vec<EpochOp>) -> StorageResult<u64> {
+        #[cfg(risinglight_verif)]
+        crate::verif::yield_point("commit.before_lock", &[]).await;
         // Hold the manifest lock so that no one else could commit changes.
         let mut manifest = self.manifest.lock().await;
+        #[cfg(risinglight_verif)]
+        crate::verif::yield_point("commit.locked", &[]).await;
 
         self.commit_changes_with_custom_manifest(ops, &mut manifest)
             .await
@@ -292,8 +302,14 @@ impl VersionManager {
             }
         }
 
+        #[cfg(risinglight_verif)]
+        crate::verif::yield_point("commit.applied", &[("epoch", current_epoch as i64)]).await;
+
         // Persist the change onto the disk.
         manifest.append(&entries).await?;
+
+        #[cfg(risinglight_verif)]
+        crate::verif::yield_point("commit.appended", &[("epoch", current_epoch as i64)]).await;
 
         // Add epoch number and make the modified snapshot available.
         let mut inner = self.inner.lock();
@@ -301,6 +317,13 @@ impl VersionManager {
         inner.epoch += 1;
         let epoch = inner.epoch;
         inner.status.insert(epoch, Arc::new(snapshot));
+        #[cfg(risinglight_verif)]
+        {
+            for op in &entries {
+                verif_op_event(op, epoch);
+            }
+            crate::verif::event("publish", &[("epoch", epoch as i64)]);
+        }
         inner
             .rowset_deletion_to_apply
             .insert(epoch, rowset_deletion_to_apply);
@@ -313,6 +336,8 @@ impl VersionManager {
         let mut inner = self.inner.lock();
         let epoch = inner.epoch;
         *inner.ref_cnt.entry(epoch).or_default() += 1;
+        #[cfg(risinglight_verif)]
+        crate::verif::event("pin", &[("epoch", epoch as i64)]);
         Arc::new(Version {
             epoch,
             snapshot: inner.status.get(&epoch).unwrap().clone(),
@@ -339,6 +364,15 @@ impl VersionManager {
         let vacuum_epoch = min_pinned_epoch.unwrap_or(inner.epoch);
 
         let can_apply = |epoch, vacuum_epoch| epoch <= vacuum_epoch;
+        #[cfg(risinglight_verif)]
+        crate::verif::event(
+            "vacuum.find",
+            &[
+                ("vacuum_epoch", vacuum_epoch as i64),
+                ("min_pinned", min_pinned_epoch.map(|x| x as i64).unwrap_or(-1)),
+                ("epoch", inner.epoch as i64),
+            ],
+        );
 
         // Fetch to-be-applied deletions.
         let mut deletions = vec![];
@@ -366,6 +400,8 @@ impl VersionManager {
     }
 
     pub async fn do_vacuum(self: &Arc<Self>) -> StorageResult<()> {
+        #[cfg(risinglight_verif)]
+        crate::verif::yield_point("vacuum.wake", &[]).await;
         let deletions = self.find_vacuum().await?;
 
         for (table_id, rowset_id) in deletions {
@@ -374,9 +410,24 @@ impl VersionManager {
                 .path
                 .join(format!("{}_{}", table_id, rowset_id));
             info!("vacuum {}_{}", table_id, rowset_id);
+            #[cfg(risinglight_verif)]
+            {
+                crate::verif::crash_point("vacuum.unlink.before", &path, &[]);
+                crate::verif::yield_point(
+                    "vacuum.unlink",
+                    &[("table", table_id as i64), ("rowset", rowset_id as i64)],
+                )
+                .await;
+                crate::verif::event(
+                    "unlink",
+                    &[("table", table_id as i64), ("rowset", rowset_id as i64)],
+                );
+            }
             if !self.storage_options.disable_all_disk_operation {
                 tokio::fs::remove_dir_all(path).await?;
             }
+            #[cfg(risinglight_verif)]
+            crate::verif::crash_point("vacuum.unlink.after", &self.storage_options.path, &[]);
         }
 
         Ok(())
@@ -413,6 +464,11 @@ impl Drop for Version {
             .get_mut(&self.epoch)
             .expect("epoch not registered!");
         *ref_cnt -= 1;
+        #[cfg(risinglight_verif)]
+        crate::verif::event(
+            "unpin",
+            &[("epoch", self.epoch as i64), ("left", *ref_cnt as i64)],
+        );
         if *ref_cnt == 0 {
             inner.ref_cnt.remove(&self.epoch).unwrap();
 
@@ -421,5 +477,95 @@ impl Drop for Version {
                 self.tx.send(()).unwrap();
             }
         }
+    }
+}
+
+/// Report one committed manifest entry (called with the inner lock held, before `publish`).
+#[cfg(risinglight_verif)]
+fn verif_op_event(op: &ManifestOperation, epoch: u64) {
+    use crate::verif::event;
+    let e = epoch as i64;
+    match op {
+        ManifestOperation::CreateTable(_) => event("op.create_table", &[("epoch", e)]),
+        ManifestOperation::DropTable(x) => event(
+            "op.drop_table",
+            &[("epoch", e), ("table", x.table_id.table_id as i64)],
+        ),
+        ManifestOperation::AddRowSet(x) => event(
+            "op.add_rowset",
+            &[
+                ("epoch", e),
+                ("table", x.table_id.table_id as i64),
+                ("rowset", x.rowset_id as i64),
+            ],
+        ),
+        ManifestOperation::DeleteRowSet(x) => event(
+            "op.delete_rowset",
+            &[
+                ("epoch", e),
+                ("table", x.table_id.table_id as i64),
+                ("rowset", x.rowset_id as i64),
+            ],
+        ),
+        ManifestOperation::AddDV(x) => event(
+            "op.add_dv",
+            &[
+                ("epoch", e),
+                ("table", x.table_id.table_id as i64),
+                ("rowset", x.rowset_id as i64),
+                ("dv", x.dv_id as i64),
+            ],
+        ),
+        ManifestOperation::DeleteDV(x) => event(
+            "op.delete_dv",
+            &[
+                ("epoch", e),
+                ("table", x.table_id.table_id as i64),
+                ("rowset", x.rowset_id as i64),
+                ("dv", x.dv_id as i64),
+            ],
+        ),
+        ManifestOperation::Begin | ManifestOperation::End => {}
+    }
+}
+
+#[cfg(risinglight_verif)]
+impl VersionManager {
+    /// Read-only view of the version manager: (epoch, pinned epoch -> count, pending deletions,
+    /// row-sets of the current snapshot, DVs of the current snapshot).
+    #[allow(clippy::type_complexity)]
+    pub fn verif_state(
+        &self,
+    ) -> (
+        u64,
+        Vec<(u64, usize)>,
+        Vec<(u64, Vec<(u32, u32)>)>,
+        Vec<(u32, u32)>,
+        Vec<(u32, u32, u64)>,
+    ) {
+        let inner = self.inner.lock();
+        let mut pins = inner.ref_cnt.iter().map(|(k, v)| (*k, *v)).collect::<Vec<_>>();
+        pins.sort();
+        let mut dels = inner
+            .rowset_deletion_to_apply
+            .iter()
+            .map(|(k, v)| (*k, v.clone()))
+            .collect::<Vec<_>>();
+        dels.sort();
+        let mut rowsets = vec![];
+        let mut dvs = vec![];
+        if let Some(snapshot) = inner.status.get(&inner.epoch) {
+            for (t, rs) in &snapshot.rowsets {
+                rowsets.extend(rs.iter().map(|r| (*t, *r)));
+            }
+            for (t, m) in &snapshot.dvs {
+                for (r, ds) in m {
+                    dvs.extend(ds.iter().map(|d| (*t, *r, *d)));
+                }
+            }
+        }
+        rowsets.sort();
+        dvs.sort();
+        (inner.epoch, pins, dels, rowsets, dvs)
     }
 }
